@@ -119,6 +119,9 @@ class Array:
             if max_float_value == 0:
                 # This special case isn't covered in the standard. I'm choosing to return no scale.
                 return 1.0
+            if math.isinf(max_float_value):
+                # Like any other value that is too large: saturate at the largest scale representable in E8M0 format.
+                return 2 ** 127
             # We need to find the largest power of 2 that is less than the max value
             log2 = math.floor(math.log2(max_float_value))
             lp2 = math.floor(math.log2(Array._largest_values[f'{name}{length}']))
